@@ -25,7 +25,8 @@ enum Ill {
     DupName(usize, String),
 }
 
-const PROFILES: [Profile; 10] = [
+const PROFILES: [Profile; 11] = [
+    Profile::WideStage,
     Profile::Funnel,
     Profile::Funnel,
     Profile::Dense,
